@@ -26,12 +26,18 @@ import (
 type c20Case struct {
 	Entry string `json:"entry"` // Sign1, Sign1Untagged, Sign1Message.Sign, UntaggedSign1Message.Sign, Signature.Sign, Countersignature.Sign, Countersign0, SignHashEnvelope, SignMessage.Sign
 	Modes []int  `json:"modes"` // per signer call: bridge.SignOK / SignErr / SignPartial / SignEmpty / SignNil
+	// DER: the signers are hand-written ES256 signers whose output is a well-formed ASN.1 ECDSA signature (what a
+	// wrapper around crypto.Signer easily hands back). Accepting it is the library's business; if the signing call
+	// reports an error instead, nothing may have been stored or returned
+	DER bool `json:"der,omitempty"`
 }
+
+var c20Alg = cose.AlgorithmEdDSA
 
 var c20ModeNames = []string{"ok", "error", "bytes+error", "empty", "nil"}
 
 func c20Headers() cose.Headers {
-	return cose.Headers{Protected: cose.ProtectedHeader{int64(1): cose.AlgorithmEdDSA}, Unprotected: cose.UnprotectedHeader{int64(4): []byte("kid")}}
+	return cose.Headers{Protected: cose.ProtectedHeader{int64(1): c20Alg}, Unprotected: cose.UnprotectedHeader{int64(4): []byte("kid")}}
 }
 
 func isFault(m int) bool   { return m == bridge.SignErr || m == bridge.SignPartial }
@@ -42,6 +48,17 @@ func checkC20(c c20Case) error {
 	rnd := refcose.NewEntropy([]byte("c20"))
 	spy := func(m int) *bridge.SpySigner {
 		return &bridge.SpySigner{Alg: cose.AlgorithmEdDSA, Mode: m, Inner: func(tbs []byte) []byte { return dummySig(tbs) }}
+	}
+	if c.DER {
+		c20Alg = cose.AlgorithmES256
+		defer func() { c20Alg = cose.AlgorithmEdDSA }()
+		spy = func(m int) *bridge.SpySigner {
+			return &bridge.SpySigner{Alg: cose.AlgorithmES256, Mode: m, Inner: func(tbs []byte) []byte {
+				der, _ := asn1.Marshal(struct{ R, S *big.Int }{new(big.Int).SetBytes(dummySig(tbs)), big.NewInt(int64(len(tbs)) + 1)})
+				return der
+			}}
+		}
+		stats.Class("hand-written-signer-returning-asn1")
 	}
 	payload := []byte("payload")
 	parent := &cose.Sign1Message{Headers: c20Headers(), Payload: payload, Signature: []byte{1, 2, 3}}
@@ -69,6 +86,10 @@ func checkC20(c c20Case) error {
 			out, err = cose.Countersign0(rnd, s, parent, nil)
 			if isFault(m) && len(out) != 0 {
 				return finding("bytes-with-error", "%s: returned %x together with %v", desc, out, err)
+			}
+			if m == bridge.SignOK && c.DER && err != nil && len(out) == 0 {
+				stats.Class("asn1-output-refused")
+				return nil
 			}
 			if noSigMode(m) {
 				// (F21) no signature and no error from the signer: Countersign0 reports that instead of returning nothing
@@ -152,6 +173,13 @@ func checkC20(c c20Case) error {
 			if (isFault(m) || noSigMode(m)) && (len(out) != 0 || err == nil) {
 				return finding("helper-returned-message", "%s: helper returned %d bytes, err=%v", desc, len(out), err)
 			}
+			if m == bridge.SignOK && c.DER && err != nil {
+				if len(out) != 0 {
+					return finding("bytes-with-error", "%s: helper returned %d bytes together with %v", desc, len(out), err)
+				}
+				stats.Class("asn1-output-refused")
+				return nil
+			}
 			if m == bridge.SignOK && (err != nil || len(out) == 0) {
 				return finding("helper-failed", "%s: %v", desc, err)
 			}
@@ -164,7 +192,17 @@ func checkC20(c c20Case) error {
 			if (isFault(m) || noSigMode(m)) && len(*slot) != 0 {
 				return finding("signature-stored-on-failure", "%s: signature field holds %x after a failing / empty signing call (err=%v)", desc, *slot, err)
 			}
+			if err != nil && len(*slot) != 0 {
+				return finding("signature-stored-on-failure", "%s: the signing call returned %v and the signature field holds %x", desc, err, *slot)
+			}
 			b, eerr := enc()
+			if m == bridge.SignOK && c.DER && err != nil {
+				if eerr == nil {
+					return finding("encodes-unsigned", "%s: the signing call returned %v, yet the message serialises: %x", desc, err, b)
+				}
+				stats.Class("asn1-output-refused")
+				return nil
+			}
 			if (isFault(m) || noSigMode(m)) && (eerr == nil || len(b) != 0) {
 				return finding("encodes-unsigned", "%s: MarshalCBOR succeeds after a failing / empty signing call: %x", desc, b)
 			}
@@ -302,6 +340,9 @@ func TestC20_SignerFaults(t *testing.T) {
 		"Countersignature.Sign/decoded", "Signature.Sign/decoded", "Sign1Message.Sign/decoded", "UntaggedSign1Message.Sign/decoded"} {
 		for m := 0; m < 5; m++ {
 			run(c20Case{Entry: e, Modes: []int{m}})
+			if !strings.HasSuffix(e, "/decoded") {
+				run(c20Case{Entry: e, Modes: []int{m}, DER: true})
+			}
 		}
 	}
 	for k := 1; k <= 4; k++ {
@@ -554,10 +595,14 @@ func checkC20EntropyInner(c c20EntropyCase) error {
 	var err error
 	alg := cose.Algorithm(c.Key.Alg)
 	stubErr := errors.New("injected crypto.Signer failure")
-	real := c.Signer == "builtin" || c.Signer == "opaque-trailing-der" || c.Signer == "cose-key-inconsistent-pair"
+	real := c.Signer == "builtin" || c.Signer == "opaque-trailing-der" || c.Signer == "cose-key-inconsistent-pair" || c.Signer == "opaque-key-reads-entropy"
 	switch c.Signer {
 	case "builtin":
 		sg, err = libSigner(c.Key, false)
+	case "opaque-key-reads-entropy":
+		// an opaque key that draws a few bytes from the entropy source it is handed before it signs (blinding,
+		// a session nonce): when that source fails, the operation fails
+		sg, err = cose.NewSigner(alg, entropyReadingKey{c.Key.Private()})
 	case "opaque-trailing-der":
 		// an opaque crypto.Signer (PKCS#11 style) whose ASN.1 output is followed by padding bytes
 		sg, err = cose.NewSigner(alg, trailingDERSigner{c.Key.Private().(*ecdsa.PrivateKey)})
@@ -630,7 +675,7 @@ func checkC20EntropyInner(c c20EntropyCase) error {
 	}
 	rd := &faultyReader{inner: refcose.NewEntropy([]byte("c20-entropy")), left: c.Limit, short: c.Short, eof: c.EOF}
 	// a randomised scheme cannot have signed when the source never delivered a single byte
-	mustFail := c.Limit == 0 && c.Key.Family() != "ed" && (c.Signer == "builtin" || c.Signer == "cose-key-inconsistent-pair")
+	mustFail := c.Limit == 0 && (c.Key.Family() != "ed" && (c.Signer == "builtin" || c.Signer == "cose-key-inconsistent-pair") || c.Signer == "opaque-key-reads-entropy")
 	payload := []byte("entropy payload")
 	hdr := cose.Headers{Protected: cose.ProtectedHeader{int64(1): alg}}
 	desc := fmt.Sprintf("%s/%s/%s/limit=%d/short=%v/eof=%v", c.Entry, refcose.AlgName(c.Key.Alg), c.Signer, c.Limit, c.Short, c.EOF)
@@ -771,6 +816,19 @@ func checkC20EntropyInner(c c20EntropyCase) error {
 	return nil
 }
 
+// entropyReadingKey reads 8 bytes from the source it is handed (nil: none needed) before the key operation.
+type entropyReadingKey struct{ inner crypto.Signer }
+
+func (k entropyReadingKey) Public() crypto.PublicKey { return k.inner.Public() }
+func (k entropyReadingKey) Sign(r io.Reader, d []byte, o crypto.SignerOpts) ([]byte, error) {
+	if r != nil {
+		if _, err := io.ReadFull(r, make([]byte, 8)); err != nil {
+			return nil, fmt.Errorf("key: entropy source: %w", err)
+		}
+	}
+	return k.inner.Sign(r, d, o)
+}
+
 func init() { register("c20entropy", checkC20Entropy) }
 
 func c20EntropyKeys() []refcose.KeyMat {
@@ -808,6 +866,15 @@ func TestC20_Entropy(t *testing.T) {
 						stats.Sample("entropy-fault", c)
 					}
 				}
+			}
+			for _, lim := range []int{0, 4, 1 << 20} {
+				n++
+				if n%nsh != sh {
+					continue
+				}
+				c := c20EntropyCase{Key: km, Entry: entry, Limit: lim, Signer: "opaque-key-reads-entropy", EOF: lim == 4}
+				stats.Eval()
+				judge(t, "c20entropy", c, checkC20Entropy)
 			}
 			for _, sgn := range []string{"stub-error", "stub-partial", "stub-empty", "stub-fails-once", "stub-panics", "stub-oversized-der", "stub-truncated-der-2n", "stub-truncated-der", "opaque-trailing-der", "cose-key-inconsistent-pair"} {
 				if km.Family() != "ec" && (sgn == "stub-oversized-der" || strings.HasPrefix(sgn, "stub-truncated-der")) {
